@@ -36,6 +36,8 @@ import (
 	"verifmc/engine/reg"
 )
 
+var debug = os.Getenv("C21_DEBUG") != ""
+
 const (
 	spec      = "mock"
 	planPrice = 10000
@@ -61,15 +63,20 @@ type scen struct {
 	rate  sdk.Dec
 	start time.Time
 
+	variants []variant
+	cur      int // selected fixture variant, -1 before the selection
+
 	// model state (function of the history)
-	fixMonthsLeft int64
-	fixProvStart  sdk.Int
 	monthsLeft    int64   // months-left the next refill must divide by
 	provStart     sdk.Int // providers' distribution pool right after the last refill (= start of the month)
 }
 
 type snap struct {
 	valDist, valAlloc, valLeft, provDist, provAlloc, feeColl, dualst, submod, community, supply sdk.Int
+}
+
+func (x snap) String() string {
+	return fmt.Sprintf("valDist=%s valAlloc=%s valLeft=%s provDist=%s provAlloc=%s fee=%s dualst=%s sub=%s comm=%s supply=%s", x.valDist, x.valAlloc, x.valLeft, x.provDist, x.provAlloc, x.feeColl, x.dualst, x.submod, x.community, x.supply)
 }
 
 func (s *scen) snap() snap {
@@ -93,14 +100,23 @@ func (s *scen) refillTime() int64 {
 	return s.w.Keepers.Rewards.TimeToNextTimerExpiry(s.w.Ctx) + s.w.Ctx.BlockTime().UTC().Unix()
 }
 
-func build(rate sdk.Dec, pending bool) *scen {
-	s := &scen{rate: rate}
+type variant struct {
+	name       string
+	rate       sdk.Dec
+	enter      func() // positions the world at the variant's fixture state
+	monthsLeft int64
+	provStart  sdk.Int
+	start      time.Time
+}
+
+// build constructs ONE world holding a common base (validator, spec, plan, two staked providers, two consumers) and,
+// as branches of it, the six fixture states {early, pending} x LeftoverBurnRate {0, 1/2, 1}. The first operation
+// of every history selects the fixture ("fixture:<name>"); this keeps all variants in one BFS run.
+func build() *scen {
+	s := &scen{}
 	w := chain.NewWorld()
 	s.w = w
 	w.SetEpochParams(4, 3)
-	params := w.Keepers.Rewards.GetParams(w.Ctx)
-	params.LeftoverBurnRate = rate
-	w.Keepers.Rewards.SetParams(w.Ctx, params)
 	w.AddValidator(0, 1000000)
 	w.Must("spec", w.AddSpecGov(chain.MockSpec(spec)))
 	plan := common.CreateMockPlan()
@@ -127,70 +143,87 @@ func build(rate sdk.Dec, pending bool) *scen {
 	}
 	epoch()
 	epoch()
-	if !pending {
-		// "early": 1 May, c0 subscribed for 3 months and already served by p0; c1 buys through an operation
-		w.Must("buy c0", w.Buy(s.cons[0], s.cons[0], plan.Index, 3, false, false))
-		epoch()
-		w.Must("pay", s.pay(0, 0))
-		adv(chain.BlockDt)
-	} else {
-		// "pending": c0 and c1 bought on 28 May one epoch apart, were served, the June refill has passed, both
-		// months expired on 28 June (in consecutive epochs); c0's payout is due in the next block, c1's four blocks
-		// later. The next refill is on 1 July.
-		adv(27 * day)
-		epoch()
-		w.Must("buy c0", w.Buy(s.cons[0], s.cons[0], plan.Index, 3, false, false))
-		epoch()
-		w.Must("buy c1", w.Buy(s.cons[1], s.cons[1], plan.Index, 3, false, false))
-		epoch()
-		w.Must("pay", s.pay(0, 0))
-		w.Must("pay", s.pay(1, 1))
-		adv(chain.BlockDt)
-		adv(time.Unix(s.refillTime(), 0).Add(time.Minute).Sub(w.Ctx.BlockTime())) // 1 June 01:02:01
-		adv(chain.BlockDt)                                                           // the June refill
-		sub, ok := w.Keepers.Subscription.GetSubscription(w.Ctx, s.cons[0].Addr.String())
-		if !ok {
-			panic("fixture: c0 has no subscription")
-		}
-		adv(time.Unix(int64(sub.MonthExpiryTime), 0).Sub(w.Ctx.BlockTime())) // c0's month ends
-		for i := 0; i < 4; i++ {                                              // one epoch later c1's month ends
-			adv(chain.BlockDt)
-		}
-		if n := len(w.Keepers.Subscription.ExportCuTrackerTimers(w.Ctx).BlockEntries); n != 2 {
-			panic(fmt.Sprintf("fixture: %d pending payouts, want 2", n))
-		}
-		for s.nextPayoutBlock() > w.Ctx.BlockHeight()+1 {
-			adv(chain.BlockDt)
-		}
-	}
-	s.start = w.Ctx.BlockTime()
-	if os.Getenv("C21_DEBUG") != "" {
-		tm := w.Keepers.Subscription.ExportCuTrackerTimers(w.Ctx)
-		fmt.Fprintf(os.Stderr, "[c21 fixture] height=%d time=%s refill=%s cuTrackerTimers: block=%d time=%d\n", w.Ctx.BlockHeight(), w.Ctx.BlockTime().UTC(), time.Unix(s.refillTime(), 0).UTC(), len(tm.BlockEntries), len(tm.TimeEntries))
-		for _, t := range tm.BlockEntries {
-			fmt.Fprintf(os.Stderr, "   timer at block %d key %q\n", t.Value, t.Key)
-		}
-		for _, c := range s.cons {
-			sub, ok := w.Keepers.Subscription.GetSubscription(w.Ctx, c.Addr.String())
-			fmt.Fprintf(os.Stderr, "   sub %v: block %d expiry %s left %d credit %s\n", ok, sub.Block, time.Unix(int64(sub.MonthExpiryTime), 0).UTC(), sub.DurationLeft, sub.Credit)
-		}
-	}
-	s.fixMonthsLeft = w.Keepers.Rewards.AllocationPoolMonthsLeft(w.Ctx)
-	s.fixProvStart = w.ModuleBalance(string(rewardstypes.ProviderRewardsDistributionPool))
 	w.MarkFixture()
-	s.ops = []opdef{
-		{name: "+1block", kind: 0, n: 1, dt: chain.BlockDt},
-		{name: "->block-before-next-payout", kind: 5},
-		{name: "+1day", kind: 0, n: 1, dt: day},
-		{name: "->refill-25h", kind: 1, off: -25 * time.Hour},
-		{name: "->refill-23h", kind: 1, off: -23 * time.Hour},
-		{name: "->refill-1h", kind: 1, off: -time.Hour},
-		{name: "->refill+1m", kind: 1, off: time.Minute},
-		{name: "->next-subscription-month-expiry", kind: 2},
-		{name: "buy(c1,3m)", kind: 3},
-		{name: "pay(p0,c0,100)", kind: 4, p: 0, c: 0},
-		{name: "pay(p1,c1,100)", kind: 4, p: 1, c: 1},
+	for _, pending := range []bool{true, false} {
+		for _, r := range rates {
+			back := w.Fork()
+			// LeftoverBurnRate is set through the module params at fixture time
+			params := w.Keepers.Rewards.GetParams(w.Ctx)
+			params.LeftoverBurnRate = r.rate
+			w.Keepers.Rewards.SetParams(w.Ctx, params)
+			name := "early/" + r.name
+			if !pending {
+				// "early": 1 May, c0 subscribed for 6 months and already served by p0; c1 buys through an operation
+				w.Must("buy c0", w.Buy(s.cons[0], s.cons[0], plan.Index, 6, false, false))
+				epoch()
+				w.Must("pay", s.pay(0, 0))
+				adv(chain.BlockDt)
+			} else {
+				// "pending": c0 and c1 bought on 28 May one epoch apart, were served, the June refill has passed, both
+				// months expired on 28 June (in consecutive epochs); c0's payout is due in the next block, c1's four
+				// blocks later. The next refill is on 1 July.
+				name = "pending/" + r.name
+				adv(27 * day)
+				epoch()
+				w.Must("buy c0", w.Buy(s.cons[0], s.cons[0], plan.Index, 6, false, false))
+				epoch()
+				w.Must("buy c1", w.Buy(s.cons[1], s.cons[1], plan.Index, 6, false, false))
+				epoch()
+				w.Must("pay", s.pay(0, 0))
+				w.Must("pay", s.pay(1, 1))
+				adv(chain.BlockDt)
+				adv(time.Unix(s.refillTime(), 0).Add(time.Minute).Sub(w.Ctx.BlockTime())) // 1 June 01:02:01
+				adv(chain.BlockDt)                                                           // the June refill
+				sub, ok := w.Keepers.Subscription.GetSubscription(w.Ctx, s.cons[0].Addr.String())
+				if !ok {
+					panic("fixture: c0 has no subscription")
+				}
+				adv(time.Unix(int64(sub.MonthExpiryTime), 0).Sub(w.Ctx.BlockTime())) // c0's month ends
+				for i := 0; i < 4; i++ {                                              // one epoch later c1's month ends
+					adv(chain.BlockDt)
+				}
+				if n := len(w.Keepers.Subscription.ExportCuTrackerTimers(w.Ctx).BlockEntries); n != 2 {
+					panic(fmt.Sprintf("fixture: %d pending payouts, want 2", n))
+				}
+				for s.nextPayoutBlock() > w.Ctx.BlockHeight()+1 {
+					adv(chain.BlockDt)
+				}
+			}
+			if debug {
+				tm := w.Keepers.Subscription.ExportCuTrackerTimers(w.Ctx)
+				fmt.Fprintf(os.Stderr, "[c21 fixture %s] height=%d time=%s refill=%s cuTrackerTimers: block=%d time=%d\n", name, w.Ctx.BlockHeight(), w.Ctx.BlockTime().UTC(), time.Unix(s.refillTime(), 0).UTC(), len(tm.BlockEntries), len(tm.TimeEntries))
+				for _, t := range tm.BlockEntries {
+					fmt.Fprintf(os.Stderr, "   timer at block %d key %q\n", t.Value, t.Key)
+				}
+				for _, c := range s.cons {
+					sub, ok := w.Keepers.Subscription.GetSubscription(w.Ctx, c.Addr.String())
+					fmt.Fprintf(os.Stderr, "   sub %v: block %d expiry %s left %d credit %s\n", ok, sub.Block, time.Unix(int64(sub.MonthExpiryTime), 0).UTC(), sub.DurationLeft, sub.Credit)
+				}
+			}
+			vr := variant{name: name, rate: r.rate, start: w.Ctx.BlockTime(),
+				monthsLeft: w.Keepers.Rewards.AllocationPoolMonthsLeft(w.Ctx),
+				provStart:  w.ModuleBalance(string(rewardstypes.ProviderRewardsDistributionPool))}
+			vr.enter = w.Fork() // remembers this state; calling it comes back here
+			s.variants = append(s.variants, vr)
+			back()
+		}
 	}
+	for i, vr := range s.variants {
+		s.ops = append(s.ops, opdef{name: "fixture:" + vr.name, kind: 6, n: i})
+	}
+	s.ops = append(s.ops,
+		opdef{name: "+1block", kind: 0, n: 1, dt: chain.BlockDt},
+		opdef{name: "->block-before-next-payout", kind: 5},
+		opdef{name: "+1day", kind: 0, n: 1, dt: day},
+		opdef{name: "->refill-25h", kind: 1, off: -25 * time.Hour},
+		opdef{name: "->refill-23h", kind: 1, off: -23 * time.Hour},
+		opdef{name: "->refill-1h", kind: 1, off: -time.Hour},
+		opdef{name: "->refill+1m", kind: 1, off: time.Minute},
+		opdef{name: "->next-subscription-month-expiry", kind: 2},
+		opdef{name: "buy(c1,6m)", kind: 3},
+		opdef{name: "pay(p0,c0,100)", kind: 4, p: 0, c: 0},
+		opdef{name: "pay(p1,c1,100)", kind: 4, p: 1, c: 1},
+	)
 	for _, o := range s.ops {
 		s.names = append(s.names, o.name)
 	}
@@ -220,18 +253,19 @@ func (s *scen) pay(p, c int) chain.TxResult {
 func (s *scen) Ops() []string { return s.names }
 func (s *scen) Reset() {
 	s.w.Reset()
-	s.monthsLeft = s.fixMonthsLeft
-	s.provStart = s.fixProvStart
+	s.cur = -1
+	s.monthsLeft = 0
+	s.provStart = sdk.ZeroInt()
 }
 
 func (s *scen) Fork() func() {
 	r := s.w.Fork()
-	ml, ps := s.monthsLeft, s.provStart
-	return func() { r(); s.monthsLeft = ml; s.provStart = ps }
+	ml, ps, cur, rate, start := s.monthsLeft, s.provStart, s.cur, s.rate, s.start
+	return func() { r(); s.monthsLeft = ml; s.provStart = ps; s.cur = cur; s.rate = rate; s.start = start }
 }
 
 func (s *scen) Hash() []byte {
-	return append(s.w.StateHash(), []byte(fmt.Sprintf("|%d|%s", s.monthsLeft, s.provStart))...)
+	return append(s.w.StateHash(), []byte(fmt.Sprintf("|%d|%d|%s", s.cur, s.monthsLeft, s.provStart))...)
 }
 
 func firstLine(x string) string {
@@ -286,57 +320,31 @@ func floorDiv(a sdk.Int, n int64) sdk.Int {
 }
 
 // block advances one block and evaluates all oracles around it. obs collects outcome labels.
+//
+// Anatomy of World.NextBlock: (1) end-block phase of the current block at its block time now0 — this is where the
+// refill timer (rewards, registered first) and the subscription payout timers (CU tracker timers) fire; (2) new
+// header; (3) begin-block phase: timers of begin-block stores, then rewards.BeginBlock pays the block reward.
 func (s *scen) block(dt time.Duration, obs map[string]bool) []ev.Violation {
 	w := s.w
 	var out []ev.Violation
+	denom := w.TokenDenom()
 	pre := s.snap()
 	now0 := w.Ctx.BlockTime().UTC().Unix()
 	e0 := s.refillTime()
-	due := e0 <= now0 // the refill timer is an end-block timer: it fires in the end-block phase of this block
-	base := pre
-	if due {
-		mid, ok := s.endPhase()
-		if ok {
-			base = mid
-			obs["refill"] = true
-			qV := floorDiv(pre.valAlloc, s.monthsLeft)
-			qP := floorDiv(pre.provAlloc, s.monthsLeft)
-			// (c) allocation / monthsLeft leaves each allocation pool
-			if !pre.valAlloc.Sub(mid.valAlloc).Equal(qV) || !pre.provAlloc.Sub(mid.provAlloc).Equal(qP) {
-				out = append(out, v("refill-quota-not-allocation-over-months-left", fmt.Sprintf("refill with %d months left (rate %s): validators allocation %s -> %s (expected -%s), providers allocation %s -> %s (expected -%s)", s.monthsLeft, s.rate, pre.valAlloc, mid.valAlloc, qV, pre.provAlloc, mid.provAlloc, qP)))
-			}
-			// (c) everything left in the providers' distribution pool is burned, then the quota is added
-			if !mid.provDist.Equal(qP) {
-				out = append(out, v("providers-distribution-pool-not-fully-burned", fmt.Sprintf("after the refill the providers' distribution pool holds %s, expected exactly the monthly quota %s (before: %s; rate %s)", mid.provDist, qP, pre.provDist, s.rate)))
-			}
-			// (d) bonus paid (claimable reward records are backed by the dualstaking module account)
-			bonus := mid.dualst.Sub(pre.dualst)
-			if bonus.IsPositive() {
-				obs["bonus"] = true
-			}
-			if bonus.GT(s.provStart) || bonus.GT(pre.provDist) {
-				out = append(out, v("bonus-exceeds-providers-pool", fmt.Sprintf("provider bonus paid %s, providers' distribution pool was %s at the start of the month and %s before the payout", bonus, s.provStart, pre.provDist)))
-			}
-			// (c) validators: burned = floor(rate * distribution pool); (leftover pool is merged without burn)
-			burnV := pre.valDist.Add(pre.valLeft).Add(qV).Sub(mid.valDist.Add(mid.valLeft))
-			wantV := s.rate.MulInt(pre.valDist).TruncateInt()
-			if !burnV.Equal(wantV) {
-				out = append(out, v("validators-burn-not-rate-times-leftover", fmt.Sprintf("refill burned %s of the validators' pools, expected floor(%s * %s) = %s (leftover pool %s, quota %s, after: distribution %s leftover %s)", burnV, s.rate, pre.valDist, wantV, pre.valLeft, qV, mid.valDist, mid.valLeft)))
-			}
-			// burn accounting through the supply: validators' burn + what was left of the providers' pool
-			burned := pre.supply.Sub(mid.supply)
-			wantBurn := wantV.Add(pre.provDist.Sub(bonus))
-			if !burned.Equal(wantBurn) {
-				out = append(out, v("refill-burn-accounting", fmt.Sprintf("supply fell by %s at the refill, expected %s (= floor(rate*validators pool) %s + providers' pool %s - bonus %s)", burned, wantBurn, wantV, pre.provDist, bonus)))
-			}
-			if !pre.valLeft.IsZero() {
-				obs["refill-with-leftover"] = true
-			}
-			if !pre.provDist.Equal(s.provStart) {
-				out = append(out, v("providers-pool-changed-within-month", fmt.Sprintf("providers' distribution pool was %s right after the last refill and %s before this one", s.provStart, pre.provDist)))
-			}
+	due := e0 <= now0 // the refill timer fires in the end-block phase of this block
+	npb := s.nextPayoutBlock()
+	payoutDue := npb != 0 && npb <= w.Ctx.BlockHeight()
+	mid, probed := pre, false
+	if due || payoutDue {
+		var ok bool
+		if mid, ok = s.endPhase(); !ok {
+			mid = pre
+		} else {
+			probed = true
 		}
 	}
+	oldEM := w.Ctx.EventManager()
+	n0 := len(oldEM.Events())
 	var inj snap
 	var factor sdk.Dec
 	var blocksTo int64
@@ -356,13 +364,66 @@ func (s *scen) block(dt time.Duration, obs map[string]bool) []ev.Violation {
 		return append(out, ev.Violation{Property: "C37", Key: "block-panic:" + stable(p), What: "panic in block processing: " + firstLine(p)})
 	}
 	post := s.snap()
-	now1 := w.Ctx.BlockTime().UTC().Unix()
 	e1 := s.refillTime()
 	ml1 := w.Keepers.Rewards.AllocationPoolMonthsLeft(w.Ctx)
-	// (b) schedule
+	if debug {
+		fmt.Fprintf(os.Stderr, "   [block %d dt=%s] due=%v payoutDue=%v\n      pre=%s\n      mid=%s\n      inj=%s\n      post=%s\n", w.Ctx.BlockHeight(), dt, due, payoutDue, pre, mid, inj, post)
+	}
+
+	// ---- end-block phase events, in order: validators' participation of payouts before / after the refill
+	partBefore, partAfter := sdk.ZeroInt(), sdk.ZeroInt() // all validators' participation
+	wantLeft := sdk.ZeroInt()                             // part of it that must be in the leftover pool after the phase
+	wrongLeft := sdk.ZeroInt()                            // part of it that must NOT be in the leftover pool
+	refillSeen := false
+	curE := e0
+	var tPayout int64
+	for _, e := range oldEM.Events()[n0:] {
+		switch e.Type {
+		case "lava_" + rewardstypes.DistributionPoolRefillEventName:
+			refillSeen = true
+			curE = e1
+		case "lava_" + rewardstypes.ValidatorsAndCommunityFund:
+			for _, a := range e.Attributes {
+				if a.Key != "validators" || a.Value == "" {
+					continue
+				}
+				cs, err := sdk.ParseCoinsNormalized(a.Value)
+				if err != nil {
+					continue
+				}
+				amt := cs.AmountOf(denom)
+				tPayout = curE - now0
+				if refillSeen {
+					partAfter = partAfter.Add(amt)
+				} else {
+					partBefore = partBefore.Add(amt)
+				}
+				if tPayout <= 24*3600 {
+					if refillSeen {
+						wantLeft = wantLeft.Add(amt)
+					} // before the refill: lands in the leftover pool, which the refill merges
+					if amt.IsPositive() {
+						obs["payout<=24h"] = true
+					}
+				} else {
+					wrongLeft = wrongLeft.Add(amt)
+					if amt.IsPositive() {
+						obs["payout>24h"] = true
+					}
+				}
+			}
+		}
+	}
+	part := partBefore.Add(partAfter)
+	if refillSeen != due {
+		out = append(out, v("refill-off-schedule", fmt.Sprintf("refill time %d, block time %d: refill due=%v but executed=%v", e0, now0, due, refillSeen)))
+	}
+
+	// ---- (b) schedule
 	if due {
+		obs["refill"] = true
 		if e1 <= now0 {
-			out = append(out, v("refill-not-executed-when-due", fmt.Sprintf("refill time %d <= block time %d but the timer did not fire / was not re-armed (next expiry %d)", e0, now0, e1)))
+			out = append(out, v("refill-not-executed-when-due", fmt.Sprintf("refill time %d <= block time %d but the timer was not re-armed in the future (next expiry %d)", e0, now0, e1)))
 		}
 		next := s.monthsLeft - 1
 		if next < 1 {
@@ -371,74 +432,105 @@ func (s *scen) block(dt time.Duration, obs map[string]bool) []ev.Violation {
 		if ml1 != next {
 			out = append(out, v("months-left-not-decremented", fmt.Sprintf("months left %d before the refill, %d after", s.monthsLeft, ml1)))
 		}
-		s.monthsLeft = next
-		s.provStart = post.provDist
-	} else {
-		if e1 != e0 || !post.valAlloc.Equal(pre.valAlloc) || !post.provAlloc.Equal(pre.provAlloc) || !post.provDist.Equal(pre.provDist) {
-			out = append(out, v("pools-moved-off-schedule", fmt.Sprintf("no refill was due (refill time %d > block time %d) but expiry %d->%d, validators allocation %s->%s, providers allocation %s->%s, providers distribution %s->%s", e0, now0, e0, e1, pre.valAlloc, post.valAlloc, pre.provAlloc, post.provAlloc, pre.provDist, post.provDist)))
+	} else if e1 != e0 || !post.valAlloc.Equal(pre.valAlloc) || !post.provAlloc.Equal(pre.provAlloc) || !post.provDist.Equal(pre.provDist) {
+		out = append(out, v("pools-moved-off-schedule", fmt.Sprintf("no refill was due (refill time %d > block time %d) but expiry %d->%d, validators allocation %s->%s, providers allocation %s->%s, providers distribution %s->%s", e0, now0, e0, e1, pre.valAlloc, post.valAlloc, pre.provAlloc, post.provAlloc, pre.provDist, post.provDist)))
+	}
+
+	// ---- (c)(d) the refill, measured over the end-block phase alone
+	if due && probed {
+		qV := floorDiv(pre.valAlloc, s.monthsLeft)
+		qP := floorDiv(pre.provAlloc, s.monthsLeft)
+		if !pre.valAlloc.Sub(mid.valAlloc).Equal(qV) || !pre.provAlloc.Sub(mid.provAlloc).Equal(qP) {
+			out = append(out, v("refill-quota-not-allocation-over-months-left", fmt.Sprintf("refill with %d months left (rate %s): validators allocation %s -> %s (expected -%s), providers allocation %s -> %s (expected -%s)", s.monthsLeft, s.rate, pre.valAlloc, mid.valAlloc, qV, pre.provAlloc, mid.provAlloc, qP)))
+		}
+		if !mid.provDist.Equal(qP) {
+			out = append(out, v("providers-distribution-pool-not-fully-burned", fmt.Sprintf("after the refill the providers' distribution pool holds %s, expected exactly the monthly quota %s (before: %s; rate %s)", mid.provDist, qP, pre.provDist, s.rate)))
+		}
+		// bonus = what the dualstaking module (claimable rewards) received beyond the providers' part of the
+		// subscription payouts of the same phase (subscription outflow - validators' - community participation)
+		bonus := mid.dualst.Sub(pre.dualst).Add(mid.submod.Sub(pre.submod)).Add(part).Add(mid.community.Sub(pre.community))
+		if bonus.IsPositive() {
+			obs["bonus"] = true
+		}
+		if bonus.GT(s.provStart) || bonus.GT(pre.provDist) || bonus.IsNegative() {
+			out = append(out, v("bonus-exceeds-providers-pool", fmt.Sprintf("provider bonus paid %s, providers' distribution pool was %s at the start of the month and %s before the payout", bonus, s.provStart, pre.provDist)))
+		}
+		if !pre.provDist.Equal(s.provStart) {
+			out = append(out, v("providers-pool-changed-within-month", fmt.Sprintf("providers' distribution pool was %s right after the last refill and %s before this one", s.provStart, pre.provDist)))
+		}
+		// validators: burned = floor(rate * distribution pool); the leftover pool is merged without burn
+		burnV := pre.valDist.Add(pre.valLeft).Add(qV).Add(part).Sub(mid.valDist.Add(mid.valLeft))
+		wantV := s.rate.MulInt(pre.valDist).TruncateInt()
+		if !burnV.Equal(wantV) {
+			out = append(out, v("validators-burn-not-rate-times-leftover", fmt.Sprintf("refill burned %s of the validators' pools, expected floor(%s * %s) = %s (leftover pool %s, quota %s, participation in the same phase %s, after: distribution %s leftover %s)", burnV, s.rate, pre.valDist, wantV, pre.valLeft, qV, part, mid.valDist, mid.valLeft)))
+		}
+		burned := pre.supply.Sub(mid.supply)
+		wantBurn := wantV.Add(pre.provDist.Sub(bonus))
+		if !burned.Equal(wantBurn) {
+			out = append(out, v("refill-burn-accounting", fmt.Sprintf("supply fell by %s at the refill, expected %s (= floor(rate*validators pool) %s + providers' pool %s - bonus %s)", burned, wantBurn, wantV, pre.provDist, bonus)))
+		}
+		if !pre.valLeft.IsZero() {
+			obs["refill-merges-leftover"] = true
 		}
 	}
-	if !injected {
-		return out
-	}
-	// (a) block reward
-	reward := inj.feeColl.Sub(pre.feeColl)
-	poolBefore := inj.valDist.Add(reward)
-	if reward.GT(poolBefore) || reward.IsNegative() {
-		out = append(out, v("block-reward-exceeds-pool", fmt.Sprintf("block reward %s, validators' distribution pool before it %s", reward, poolBefore)))
-	}
-	if reward.IsPositive() {
-		obs["reward"] = true
-	} else {
-		obs["reward-zero"] = true
-		if blocksTo > 0 && factor.MulInt(poolBefore).QuoInt64(blocksTo).TruncateInt().GTE(sdk.NewInt(2)) {
-			out = append(out, v("block-reward-not-paid", fmt.Sprintf("pool %s, bonded factor %s, blocks to refill %d: a reward was due but nothing reached the fee collector", poolBefore, factor, blocksTo)))
+	if due {
+		s.monthsLeft--
+		if s.monthsLeft < 1 {
+			s.monthsLeft = 1
+		}
+		s.provStart = mid.provDist
+		if !probed {
+			s.provStart = post.provDist
 		}
 	}
-	// (e) destination of the validators' participation of the payouts of this block's begin phase
-	part := sdk.ZeroInt()
-	for _, e := range w.BlockEvents() {
-		if e.Type != "lava_"+rewardstypes.ValidatorsAndCommunityFund {
-			continue
-		}
-		for _, a := range e.Attributes {
-			if a.Key == "validators" && a.Value != "" {
-				if cs, err := sdk.ParseCoinsNormalized(a.Value); err == nil {
-					part = part.Add(cs.AmountOf(w.TokenDenom()))
-				}
+
+	// ---- (e) destination of the validators' participation of the payouts of this end-block phase
+	if probed && part.IsPositive() {
+		if !due {
+			dLeft := mid.valLeft.Sub(pre.valLeft)
+			dDist := mid.valDist.Sub(pre.valDist)
+			switch {
+			case wrongLeft.IsPositive() && dLeft.IsPositive():
+				out = append(out, v("participation-to-leftover-outside-last-24h", fmt.Sprintf("payout %d s (> 24 h) before the refill: validators' participation %s, leftover pool received %s, distribution pool received %s", tPayout, part, dLeft, dDist)))
+			case wrongLeft.IsPositive() && dDist.LT(part):
+				out = append(out, v("participation-lost", fmt.Sprintf("validators' participation %s, distribution pool received %s, leftover pool %s", part, dDist, dLeft)))
+			case wrongLeft.IsZero() && !dLeft.Equal(part):
+				out = append(out, v("participation-to-distribution-in-last-24h", fmt.Sprintf("payout %d s (<= 24 h) before the refill: validators' participation %s, leftover pool received %s, distribution pool received %s", tPayout, part, dLeft, dDist)))
+			}
+		} else {
+			// payouts in the phase of a refill: the leftover pool is emptied by the refill, afterwards it may only
+			// hold participation of payouts that are again within 24 h of the next refill
+			if mid.valLeft.GT(wantLeft) {
+				out = append(out, v("participation-to-leftover-outside-last-24h", fmt.Sprintf("payout right after a refill, %d s (> 24 h) before the next one: validators' participation %s, leftover pool holds %s after the phase (expected %s)", tPayout, partAfter, mid.valLeft, wantLeft)))
+			} else if mid.valLeft.LT(wantLeft) {
+				out = append(out, v("participation-to-distribution-in-last-24h", fmt.Sprintf("leftover pool holds %s after the refill phase, expected %s", mid.valLeft, wantLeft)))
 			}
 		}
+	} else if probed && !due && !mid.valLeft.Equal(pre.valLeft) {
+		out = append(out, v("leftover-pool-unexplained-inflow", fmt.Sprintf("leftover pool %s -> %s without a payout", pre.valLeft, mid.valLeft)))
 	}
-	if os.Getenv("C21_DEBUG") != "" {
-		for _, e := range w.BlockEvents() {
-			fmt.Fprintf(os.Stderr, "   [event] %s %v\n", e.Type, e.Attributes)
+
+	// ---- (a) block reward (begin-block phase)
+	if injected {
+		reward := inj.feeColl.Sub(pre.feeColl)
+		poolBefore := inj.valDist.Add(reward)
+		if probed && !poolBefore.Equal(mid.valDist) {
+			obs["PROBE-MISMATCH"] = true
+			return out
 		}
-		fmt.Fprintf(os.Stderr, "   [block %d] pre=%+v\n      inj=%+v\n      post=%+v\n", w.Ctx.BlockHeight(), pre, inj, post)
-	}
-	dLeft := inj.valLeft.Sub(base.valLeft)
-	dDist := poolBefore.Sub(base.valDist)
-	toRefill := e1 - now1
-	if part.IsPositive() {
-		switch {
-		case toRefill > 24*3600:
-			obs["payout>24h"] = true
-		case toRefill >= 0:
-			obs["payout<=24h"] = true
-		default:
-			obs["payout-after-refill-time"] = true
+		if reward.GT(poolBefore) || reward.IsNegative() {
+			out = append(out, v("block-reward-exceeds-pool", fmt.Sprintf("block reward %s, validators' distribution pool before it %s", reward, poolBefore)))
 		}
-	}
-	if toRefill > 24*3600 {
-		if dLeft.IsPositive() {
-			out = append(out, v("participation-to-leftover-outside-last-24h", fmt.Sprintf("%d s (> 24 h) before the refill the validators' leftover pool received %s (validators' participation of the payouts in this block: %s; distribution pool received %s)", toRefill, dLeft, part, dDist)))
-		} else if dDist.LT(part) {
-			out = append(out, v("participation-lost", fmt.Sprintf("validators' participation %s, distribution pool received %s, leftover pool %s", part, dDist, dLeft)))
+		if reward.IsPositive() {
+			obs["reward"] = true
+		} else {
+			obs["reward-zero"] = true
+			if blocksTo > 0 && factor.MulInt(poolBefore).QuoInt64(blocksTo).TruncateInt().GTE(sdk.NewInt(2)) {
+				out = append(out, v("block-reward-not-paid", fmt.Sprintf("pool %s, bonded factor %s, blocks to refill %d: a reward was due but nothing reached the fee collector", poolBefore, factor, blocksTo)))
+			}
 		}
-	} else {
-		if dLeft.LT(part) {
-			out = append(out, v("participation-to-distribution-in-last-24h", fmt.Sprintf("%d s (<= 24 h) before the refill the validators' participation %s reached the leftover pool only with %s (distribution pool received %s)", toRefill, part, dLeft, dDist)))
-		} else if dLeft.GT(part) {
-			out = append(out, v("leftover-pool-unexplained-inflow", fmt.Sprintf("leftover pool received %s, validators' participation %s", dLeft, part)))
+		if !post.valDist.Equal(inj.valDist) || !post.valLeft.Equal(inj.valLeft) {
+			obs["PROBE-MISMATCH"] = true
 		}
 	}
 	return out
@@ -451,7 +543,7 @@ func (s *scen) Apply(op int) bfs.Step {
 	var viol []ev.Violation
 	label := func() string {
 		var ks []string
-		for _, k := range []string{"refill", "refill-with-leftover", "bonus", "reward", "reward-zero", "payout>24h", "payout<=24h", "payout-after-refill-time"} {
+		for _, k := range []string{"PROBE-MISMATCH", "refill", "refill-merges-leftover", "bonus", "reward", "reward-zero", "payout>24h", "payout<=24h"} {
 			if obs[k] {
 				ks = append(ks, k)
 			}
@@ -461,7 +553,16 @@ func (s *scen) Apply(op int) bfs.Step {
 		}
 		return strings.Join(ks, "+")
 	}
+	if (o.kind == 6) != (s.cur < 0) {
+		return bfs.Step{Accepted: false, Obs: "not-applicable"}
+	}
 	switch o.kind {
+	case 6:
+		vr := s.variants[o.n]
+		vr.enter()
+		w.Fork() // work on a branch of the remembered state, never on the state itself
+		s.cur, s.rate, s.start, s.monthsLeft, s.provStart = o.n, vr.rate, vr.start, vr.monthsLeft, vr.provStart
+		return bfs.Step{Accepted: true, Obs: "fixture"}
 	case 0:
 		for i := 0; i < o.n && len(viol) == 0; i++ {
 			viol = s.block(o.dt, obs)
@@ -496,7 +597,7 @@ func (s *scen) Apply(op int) bfs.Step {
 	case 3, 4:
 		var res chain.TxResult
 		if o.kind == 3 {
-			res = w.Buy(s.cons[1], s.cons[1], "free", 3, false, false)
+			res = w.Buy(s.cons[1], s.cons[1], "free", 6, false, false)
 		} else {
 			res = s.pay(o.p, o.c)
 		}
@@ -523,27 +624,28 @@ var rates = []struct {
 }{{"burn0", sdk.ZeroDec()}, {"burn50", sdk.NewDecWithPrec(5, 1)}, {"burn100", sdk.OneDec()}}
 
 func init() {
-	for _, r := range rates {
-		r := r
-		bfs.Register("c21/early/"+r.name, func() bfs.Scenario { return build(r.rate, false) })
-		bfs.Register("c21/pending/"+r.name, func() bfs.Scenario { return build(r.rate, true) })
-	}
+	bfs.Register("c21", func() bfs.Scenario { return build() })
 	reg.Register(reg.Check{Property: "C21", Level: "model_checking", Run: func(run *ev.Run) {
-		depth, deadline := 4, 75*time.Second
+		depth, deadline := 5, 70*time.Second
 		if ev.Tier() == "thorough" {
-			depth, deadline = 6, 15*time.Minute
+			depth, deadline = 7, 15*time.Minute
 		}
-		exh := true
-		for _, fx := range []string{"pending", "early"} {
-			for _, r := range rates {
-				cfg := bfs.Config{Scenario: "c21/" + fx + "/" + r.name, MaxDepth: depth, Deadline: deadline / 6}
-				st := bfs.Explore(cfg, run)
-				bfs.Report(run, fx+"/"+r.name, cfg, st)
-				exh = exh && st.Exhaustive
+		cfg := bfs.Config{Scenario: "c21", MaxDepth: depth + 1, Deadline: deadline}
+		st := bfs.Explore(cfg, run)
+		bfs.Report(run, "", cfg, st)
+		exh := st.Exhaustive
+		mismatch := int64(0)
+		for o, n := range st.Outcomes {
+			if strings.Contains(o, "PROBE-MISMATCH") || strings.Contains(o, "INCONCLUSIVE") {
+				mismatch += n
 			}
 		}
+		run.Set("probe_mismatches_or_inconclusive", mismatch)
+		if mismatch > 0 || len(st.HarnessErrors) > 0 {
+			exh = false
+		}
 		run.Set("exhaustive", exh)
-		run.Set("bound", fmt.Sprintf("all histories up to depth %d over 11 ops (+1 block, 30-s blocks up to the one before the next subscription payout, +1 day, jump to refill-25h / -23h / -1h / +1min, jump to the next subscription month expiry, buy(c1, 3 months), relay payments p0<-c0 and p1<-c1 of 100 CU) x LeftoverBurnRate {0, 1/2, 1} x 2 fixtures (early: 1 May, c0 subscribed and served; pending: 28 June, payouts of c0 and c1 due in the next two blocks, refill on 1 July), horizon 100 days; every single block is checked", depth))
-		run.Assume("mock bank/account keeper of testutil/keeper; begin/end blockers in app.go order (engine/chain); the refill is observed on a discarded fork that runs the end-block phase (staking, pairing, timerstore) of the block alone; the validators' participation amount of a payout is read from the lava_validators_and_community_fund event, its destination from the pool balances; cosmos distribution begin-blocker not run (fee collector only accumulates)")
+		run.Set("bound", fmt.Sprintf("all histories of one fixture-selecting op followed by up to %d ops out of 11 (+1 block, 30-s blocks up to the one before the next subscription payout, +1 day, jump to refill-25h / -23h / -1h / +1min, jump to the next subscription month expiry, buy(c1, 6 months), relay payments p0<-c0 and p1<-c1 of 100 CU); fixtures = LeftoverBurnRate {0, 1/2, 1} x {early: 1 May, c0 subscribed and served; pending: 28 June, payouts of c0 and c1 due in the next block and four blocks later, refill on 1 July}; horizon 100 days; every single block is checked; a violating state is not expanded further", depth))
+		run.Assume("mock bank/account keeper of testutil/keeper; begin/end blockers in app.go order (engine/chain); refill and payouts (end-block timers) are measured on a discarded fork that runs the end-block phase (staking, pairing, timerstore) of the block alone, cross-checked against the real block; the validators' participation amount of a payout is read from the lava_validators_and_community_fund event, its destination from the pool balances; cosmos distribution begin-blocker not run (fee collector only accumulates)")
 	}})
 }
